@@ -17,7 +17,7 @@ CONFIG = {
         engine="crash",
         level="fault_enumeration",
         tiers=dict(
-            quick=dict(runs=64, opts=dict(faultspec=dict(mode="sample", count=36, interrupts=3, tail_prob=0.2, tail_max=1), real_frac=0.06, real_count=8, pairs=0, limit=300)),
+            quick=dict(runs=56, opts=dict(faultspec=dict(mode="sample", count=36, interrupts=3, tail_prob=0.2, tail_max=1), real_frac=0.06, real_count=8, pairs=0, limit=300)),
             thorough=dict(runs=960, opts=dict(faultspec=dict(mode="all", interrupts=40, tail_prob=0.25, tail_max=3), slices=4, real_frac=0.04, real_count=12, pairs=1, limit=900)),
         ),
         det=dict(quick=8, thorough=32),
@@ -25,7 +25,7 @@ CONFIG = {
             dict(
                 name="multi-session histories with faults (crash recovery across sessions)",
                 engine="store",
-                runs=dict(quick=1200, thorough=120000),
+                runs=dict(quick=1000, thorough=100000),
                 opts=dict(config="c38h"),
             )
         ],
@@ -43,7 +43,7 @@ CONFIG = {
         engine="pool",
         level="exploration",
         tiers=dict(
-            quick=dict(runs=160, opts=dict(n_widths=3, n_schedules=2, limit=300)),
+            quick=dict(runs=128, opts=dict(n_widths=3, n_schedules=2, limit=300)),
             thorough=dict(runs=3200, opts=dict(n_widths=4, n_schedules=3, w_fidelity=0.3, limit=600)),
         ),
         det=dict(quick=16, thorough=48),
